@@ -7,11 +7,12 @@ write_to_granules(data, G, preamble, postamble):
     stream:  for all j < |T| :   A'[ offset(G[j div 2304]) + j mod 2304 ] == T[j]        T = preamble || data || postamble
     frame:   every byte outside the granules G[0 .. needed) is unchanged
 
-under the precondition that the trailer does not straddle a granule end ((pre + L) mod 2304 <= 2299 when there is a
-postamble) -- the straddle case is the genuine defect recorded in known_findings.json and is shown by the bounded
-disk_layout cells.  The proof follows the recursion of the real function: the nested call is replaced by this very
-contract (decreases L), write_bytes_to_buffer by its contract (proved in disk_writer_fns), seek_granule and the
-preamble / postamble writers are inlined.  Distinctness of the chain is carried by an injectivity ghost P[G[m]] == m;
+with NO condition on where the trailer falls (until the fix "write_to_granules keeps the postamble inside the granule
+chain" the contract needed the pre-condition that the trailer does not straddle a granule end; see `fixed` in
+known_findings.json).  The proof follows the recursion of the real function: the nested call is replaced by this very
+contract (decreases = data length; the nested call's parameter shape -- preamble None, postamble None, first_granule
+False, data = rest of data || trailer -- is a cell of its own), write_bytes_to_buffer by its contract (proved in
+disk_writer_fns), seek_granule and the preamble / postamble writers are inlined.  Distinctness of the chain is carried by an injectivity ghost P[G[m]] == m;
 "q lies in one of the granules G[lo .. lo+cnt)" is expressed without quantifier through the inverse of the geometry.
 """
 import z3
@@ -95,16 +96,17 @@ class DiskWriteToGranules:
     max_paths = 400
 
     def cells(self, tier):
+        # the nested call of the recursion has another parameter shape (preamble None, first_granule False): the contract
+        # assumed for it must be proved for that shape too, with and without postamble, or the induction is incomplete
         return [{"id": "fn/write_to_granules/ML", "kind": "ML"}, {"id": "fn/write_to_granules/BASIC", "kind": "BASIC"},
-                {"id": "fn/write_to_granules/ASCII", "kind": "ASCII"}]
+                {"id": "fn/write_to_granules/ASCII", "kind": "ASCII"},
+                {"id": "fn/write_to_granules/nested-call", "kind": "REC-NOPOST"}]
 
     def probes(self, cell):
         kind = cell["kind"]
         for L, chain in ((0, [5]), (1, [33]), (2294, [33, 34]), (2299, [67, 0]), (2304, [34, 33]), (5000, [10, 50, 2]), (4598, [1, 2, 3]),
                          (2289, [66]), (6000, [0, 67, 33]), (7000, [33, 34, 35, 36])):
-            pre = {"ML": 5, "BASIC": 3, "ASCII": 0}[kind]
-            if kind == "ML" and (L + pre) % GR > 2299:
-                continue
+            pre = {"ML": 5, "BASIC": 3, "ASCII": 0, "REC-POST": 0, "REC-NOPOST": 0}[kind]
             yield {"L": L, "k": len(chain), "chain": chain, "dataarr": [(3 * i + 1) % 251 for i in range(L)]}
 
     def run(self, env, cell):
@@ -126,10 +128,11 @@ class DiskWriteToGranules:
         need = len(stream) // GR + 1
         if len(set(chain)) != len(chain) or any(not 0 <= g <= 67 for g in chain) or len(chain) < need:
             raise sym.PathAbort()
-        if post is not None and (len(stream) - 5) % GR > 2299:
-            raise sym.PathAbort()
         try:
-            F.method(d, "write_to_granules", list(data), list(chain), pre, post)
+            if kind.startswith("REC"):
+                F.method(d, "write_to_granules", list(data), list(chain), None, post, first_granule=False)
+            else:
+                F.method(d, "write_to_granules", list(data), list(chain), pre, post)
         except Raised as e:
             env.fail(KEY + "write_to_granules::raises:none", ("C08", "C13"), lambda: "write_to_granules:%s:raised:%s" % (kind, e.cls))
             return
@@ -155,6 +158,13 @@ class DiskWriteToGranules:
             F.set(pre, "data_length", F.numeric(0x0102))
             post = None
             stream = [0xFF, 0x01, 0x02] + list(data)
+        elif kind == "REC-POST":
+            pre = None
+            post = F.new(DSK, "Postamble")
+            F.set(post, "exec_addr", F.numeric(0x5678))
+            stream = list(data) + [0xFF, 0x00, 0x00, 0x56, 0x78]
+        elif kind == "REC-NOPOST":
+            pre, post, stream = None, None, list(data)
         else:
             pre = F.new(DSK, "ASCIIPreamble")
             post = None
@@ -165,8 +175,8 @@ class DiskWriteToGranules:
     def symbolic(self, env, cell):
         F = Files(env)
         kind = cell["kind"]
-        pl = {"ML": 5, "BASIC": 3, "ASCII": 0}[kind]
-        has_post = kind == "ML"
+        pl = {"ML": 5, "BASIC": 3, "ASCII": 0, "REC-POST": 0, "REC-NOPOST": 0}[kind]
+        has_post = kind in ("ML", "REC-POST")
         W = WTG(env, F, pl, has_post)
         L = env.hole_int("L", 0, 65535)
         k = env.hole_int("k", 1, 68)
@@ -176,8 +186,6 @@ class DiskWriteToGranules:
         need = sym.floordiv(total, GR) + 1
         p = cur()
         p.assume(need <= k)
-        if has_post:
-            p.assume(((pl + L) % GR) <= 2299)           # no trailer straddle (the known defect)
         d = F.new(DSK, "DiskFile")
         A0 = z3.Array("A0", z3.IntSort(), z3.IntSort())
         buf = ArrList(A0, N)
@@ -201,9 +209,9 @@ class DiskWriteToGranules:
             p.fresh += 1
             Anew = z3.Array("Awb!%d" % p.fresh, z3.IntSort(), z3.IntSort())
             b.arr = Anew
-            doff = dat.off
-            v_.facts.append(Forall("wb-written", 0, n, lambda t, Anew=Anew, pointer=pointer, doff=doff:
-                                   sel(Anew, pointer + t) == sel(W.DA, doff + t)))
+            doff, darr = dat.off, dat.arr
+            v_.facts.append(Forall("wb-written", 0, n, lambda t, Anew=Anew, pointer=pointer, doff=doff, darr=darr:
+                                   sel(Anew, pointer + t) == sel(darr, doff + t)))
             v_.facts.append(Forall("wb-frame", 0, N, lambda q, Anew=Anew, Aold=Aold, pointer=pointer, n=n:
                                    Implies(Or(q < pointer, q >= pointer + n), sel(Anew, q) == sel(Aold, q))))
             state["wb"] = (pointer, n, doff)
@@ -211,25 +219,22 @@ class DiskWriteToGranules:
         v.contract(wkey, CallSpec(apply_wbtb))
 
         def apply_rec(v_, interp, func, args):
-            """the function's own contract for the nested call (no preamble, first_granule False)"""
+            """the function's own contract for the nested call (no preamble, no postamble, first_granule False)"""
             dat, ch = args["file_data"], args["allocated_granules"]
-            if args["preamble"] is not None or args["first_granule"] is not False:
-                raise sym.EngineError("nested write_to_granules call with a preamble")
+            if args["preamble"] is not None or args["first_granule"] is not False or args["postamble"] is not None:
+                raise sym.EngineError("nested write_to_granules call with a preamble / postamble")
             Ld, kd = dat.length(), ch.length()
-            tot = Ld + W.postlen
-            needd = sym.floordiv(tot, GR) + 1
+            needd = sym.floordiv(Ld, GR) + 1
             env.ensure(key + "::pre@call:enough-granules", needd <= kd, ("C08",))
-            if has_post:
-                env.ensure(key + "::pre@call:no-straddle", (Ld % GR) <= 2299, ("C08",))
-            env.ensure(key + "::decreases", Ld < L, ("C08", "C13"))
+            env.ensure(key + "::decreases", Ld < L + W.postlen, ("C08", "C13"))
             b = interp.getattr_(args["self"], "buffer")
             Aold = b.arr
             p.fresh += 1
             Anew = z3.Array("Arec!%d" % p.fresh, z3.IntSort(), z3.IntSort())
             b.arr = Anew
-            goff, doff = ch.off, dat.off
-            v_.facts.append(Forall("rec-stream", 0, tot, lambda j, Anew=Anew, goff=goff, doff=doff, Ld=Ld:
-                                   sel(Anew, W.loc(j, goff)) == W.stream(j, 0, doff, Ld)))
+            goff, doff, darr = ch.off, dat.off, dat.arr
+            v_.facts.append(Forall("rec-stream", 0, Ld, lambda j, Anew=Anew, goff=goff, doff=doff, darr=darr:
+                                   sel(Anew, W.loc(j, goff)) == sel(darr, doff + j)))
             v_.facts.append(Forall("rec-frame", 0, N, lambda q, Anew=Anew, Aold=Aold, goff=goff, needd=needd:
                                    Implies(Not(W.inregion(q, goff, needd)), sel(Anew, q) == sel(Aold, q))))
             state["rec"] = (goff, doff, Ld, needd)
@@ -237,7 +242,10 @@ class DiskWriteToGranules:
         v.contract(key, CallSpec(apply_rec, nested_only=True))
         with v.installed():
             try:
-                F.method(d, "write_to_granules", data, chain, pre, post)
+                if kind.startswith("REC"):
+                    F.method(d, "write_to_granules", data, chain, None, post, first_granule=False)
+                else:
+                    F.method(d, "write_to_granules", data, chain, pre, post)
             except Raised as e:
                 env.fail(key + "::raises:none", ("C08", "C13"))
                 return
